@@ -15,7 +15,9 @@ THEOREMS = ["OdxVerif.Codec." + t for t in ['C01_roundtrip_struct', 'C01_roundtr
                                             # field tier (Props/C01Fields.lean, Proofs/FieldTier*.lean)
                                             'C01_roundtrip_fields', 'fitems_roundtrip_msg', 'gitems_roundtrip_msg', 'StaticLeaf.good', 'StaticLeaf.encode_eq',
                                             'StaticLeaf.decode_eq', 'DynLeaf.good', 'DynLeaf.encode_eq', 'DynLeaf.decode_eq', 'Good.padTo', 'Good.touch', 'Good.list',
-                                            'Good.advancing']]
+                                            'Good.advancing',
+                                            'C01_roundtrip_fields_eop', 'fitems_eop_roundtrip_msg', 'EopLeaf.encode_eq', 'EopLeaf.decode_eq', 'decodeToEnd_eq',
+                                            'GItems.decPre_intro']]
 RULE = ("well-formed descriptions (envelope wf of DESIGN §6/C01, by construction in harness/odxgen/gen.py) x canonical values "
         "(odxgen/values.py): corpus of past failures; every BYTE-SIZE structure size x offset; every (integer type, encoding, byte order, "
         "bit length, bit position) standard-length DOP with boundary values; floats/strings/byte fields x encodings x byte orders; random "
